@@ -7,7 +7,7 @@ from . import manifests as M
 
 PID = 'C05'
 PINS = C.load_pins('C05')
-PROOF_FILES = ['Proofs/CstProofs.v', 'Proofs/JsonWalkProofs.v', 'Proofs/TomlWalkProofs.v', 'Proofs/PyWalkProofs.v', 'Proofs/YamlWalkProofs.v', 'Proofs/GhaWalkProofs.v', 'Proofs/GoModProofs.v', 'Proofs/ParserPins.v', 'Props/C05.v']
+PROOF_FILES = ['Proofs/CstProofs.v', 'Proofs/JsonWalkProofs.v', 'Proofs/TomlWalkProofs.v', 'Proofs/PyWalkProofs.v', 'Proofs/YamlWalkProofs.v', 'Proofs/GhaWalkProofs.v', 'Proofs/GhaLocProofs.v', 'Proofs/GoModProofs.v', 'Proofs/ParserPins.v', 'Props/C05.v']
 CLASS_FINDING = {
     'utf16': 'C05-byte-columns-sent-as-utf16',
     'gha-quoted-uses': 'C05-quoted-uses-range-shifted',
@@ -73,7 +73,7 @@ def coverage(rep, doc, pkgs):
 
 def run(tier, seed):
     rep = C.Report(PID, tier, seed, 'proof')
-    proofs_ok = C.standard_proof_phase(rep, ['parsers'], ['theories/Props/C05.vo', 'theories/Proofs/ParserPins.vo', 'theories/Run/ParseRun.vo'], 'Props.C05', PINS['theorems'], PROOF_FILES, [], imports=PINS['imports'])
+    proofs_ok = C.standard_proof_phase(rep, ['parsers'], ['theories/Props/C05.vo', 'theories/Proofs/ParserPins.vo', 'theories/Run/ParseRun.vo', 'theories/Run/ManifestOracle.vo'], 'Props.C05', PINS['theorems'], PROOF_FILES, [], imports=PINS['imports'])
     hok, hlog = C.build_harness()
     if not hok:
         rep.broke('harness does not build against /repo', hlog[-1500:])
@@ -144,6 +144,18 @@ def run(tier, seed):
         for e in errs:
             rep.broke('contract evaluation failed', e)
         rep.cov['streams']['json_structural_theorem'] = {'trees': len(jt), 'inside_hypothesis': len(jt) - len(outside), 'outside_hypothesis_checked_by_oracle_only': len(outside)}
+    # C05_github_actions_covers_ref observed on the real trees: hypotheses and conclusion evaluated in Coq on the model's walk
+    if proofs_ok and outs:
+        gt = [f"({C.g_bytes(t)}, {P.g_node(o['out']['cst'])})" for (f, t), o in zip(pairs, outs_w)
+              if f == 'github_actions' and isinstance(o['out']['pkgs'], list) and o['out'].get('cst') is not None]
+        gbad, gerrs = C.coq_eval_verdicts(PID, 'ghaloc', 'From Coq Require Import ZArith.\nFrom VL Require Import Lib.Bytes Lib.Cst Run.ManifestOracle.\n', 'bytes * node', gt, 'gha_loc_oracle')
+        for e in gerrs:
+            rep.broke('evaluation of gha_loc_oracle failed', e)
+        gc = collections.Counter(gbad.values())
+        if gc.get(6):
+            rep.broke('a workflow inside the hypotheses of C05_github_actions_covers_ref has a location that is neither exact nor in the quoted class (contradicts the theorem: the oracle or the build is inconsistent)', {'count': gc[6]})
+        rep.cov['streams']['gha_location_theorem'] = {'trees': len(gt), 'all_ranges_exact': len(gt) - len(gbad), 'some_range_in_quoted_class': gc.get(7, 0),
+                                                      'outside_hypotheses': gc.get(8, 0), 'no_denotation': gc.get(4, 0)}
     rep.cov.update({'evaluations': len(outs), 'distinct_nontrivial': len({t for _, t in pairs + mal}),
                     'rule': 'well-formed manifests of the 7 formats under random layouts (coverage part: the reported range against the generator\'s record of where the spec text sits, UTF-16 columns) '
                             'and damaged documents (truncation at sampled prefixes, token splicing, Unicode injection, deletion, block moves; structural part); non-trivial = distinct documents'})
